@@ -27,3 +27,307 @@ impl<K: std::hash::Hash + Eq + Clone, V: Clone> PoolWatch<K, V> {
             .collect()
     }
 }
+
+/// `noise::Stream<S>` over an arbitrary transport.
+pub mod noise {
+    use std::{
+        pin::Pin,
+        task::{Context, Poll},
+    };
+
+    use zksync_concurrency::{ctx, io};
+    use zksync_consensus_crypto::keccak256::Keccak256;
+
+    pub struct Stream<S>(crate::noise::Stream<S>);
+
+    impl<S: io::AsyncRead + io::AsyncWrite + Unpin> Stream<S> {
+        pub async fn server_handshake(ctx: &ctx::Ctx, stream: S) -> ctx::Result<Self> {
+            crate::noise::Stream::server_handshake(ctx, stream)
+                .await
+                .map(Self)
+        }
+        pub async fn client_handshake(ctx: &ctx::Ctx, stream: S) -> ctx::Result<Self> {
+            crate::noise::Stream::client_handshake(ctx, stream)
+                .await
+                .map(Self)
+        }
+        /// Session id (handshake hash).
+        pub fn id(&self) -> Keccak256 {
+            self.0.id()
+        }
+    }
+
+    impl<S: io::AsyncRead + io::AsyncWrite + Unpin> io::AsyncRead for Stream<S> {
+        fn poll_read(
+            self: Pin<&mut Self>,
+            cx: &mut Context<'_>,
+            buf: &mut io::ReadBuf<'_>,
+        ) -> Poll<io::Result<()>> {
+            Pin::new(&mut self.get_mut().0).poll_read(cx, buf)
+        }
+    }
+
+    impl<S: io::AsyncRead + io::AsyncWrite + Unpin> io::AsyncWrite for Stream<S> {
+        fn poll_write(
+            self: Pin<&mut Self>,
+            cx: &mut Context<'_>,
+            buf: &[u8],
+        ) -> Poll<io::Result<usize>> {
+            Pin::new(&mut self.get_mut().0).poll_write(cx, buf)
+        }
+        fn poll_flush(self: Pin<&mut Self>, cx: &mut Context<'_>) -> Poll<io::Result<()>> {
+            Pin::new(&mut self.get_mut().0).poll_flush(cx)
+        }
+        fn poll_shutdown(self: Pin<&mut Self>, cx: &mut Context<'_>) -> Poll<io::Result<()>> {
+            Pin::new(&mut self.get_mut().0).poll_shutdown(cx)
+        }
+    }
+}
+
+/// `mux::{Mux, StreamQueue, Config, Stream}`.
+pub mod mux {
+    use std::{collections::BTreeMap, sync::Arc};
+
+    use zksync_concurrency::{ctx, io, limiter};
+
+    use crate::noise::bytes;
+
+    #[derive(Debug, Clone)]
+    pub struct Config(crate::mux::Config);
+
+    impl Config {
+        pub fn new(
+            read_frame_size: u64,
+            read_buffer_size: u64,
+            read_frame_count: u64,
+            write_frame_size: u64,
+        ) -> Self {
+            Self(crate::mux::Config {
+                read_frame_size,
+                read_buffer_size,
+                read_frame_count,
+                write_frame_size,
+            })
+        }
+        /// The configuration every RPC service uses.
+        pub fn rpc_default() -> Self {
+            Self(crate::rpc::MUX_CONFIG.clone())
+        }
+    }
+
+    #[derive(Clone)]
+    pub struct StreamQueue(Arc<crate::mux::StreamQueue>);
+
+    impl StreamQueue {
+        pub fn new(ctx: &ctx::Ctx, max_streams: u32, rate: limiter::Rate) -> Self {
+            Self(crate::mux::StreamQueue::new(ctx, max_streams, rate))
+        }
+        /// Opens (connect side) / accepts (accept side) the next transient stream.
+        pub async fn open(&self, ctx: &ctx::Ctx) -> ctx::OrCanceled<Stream> {
+            let s = self.0.open(ctx).await?;
+            Ok(Stream {
+                read: ReadStream(s.read),
+                write: WriteStream(s.write),
+            })
+        }
+    }
+
+    pub struct ReadStream(crate::mux::ReadStream);
+    pub struct WriteStream(crate::mux::WriteStream);
+    pub struct Stream {
+        pub read: ReadStream,
+        pub write: WriteStream,
+    }
+
+    impl ReadStream {
+        /// Reads until `buf` is full or the stream ends; returns the number of bytes read.
+        pub async fn read_exact(&mut self, ctx: &ctx::Ctx, buf: &mut [u8]) -> anyhow::Result<usize> {
+            let mut b = bytes::Buffer::new(buf.len());
+            self.0.read_exact(ctx, &mut b).await?;
+            let n = b.len();
+            buf[..n].copy_from_slice(b.as_slice());
+            Ok(n)
+        }
+    }
+
+    impl WriteStream {
+        pub async fn write_all(&mut self, ctx: &ctx::Ctx, buf: &[u8]) -> anyhow::Result<()> {
+            self.0.write_all(ctx, buf).await
+        }
+        pub async fn flush(&mut self, ctx: &ctx::Ctx) -> anyhow::Result<()> {
+            self.0.flush(ctx).await
+        }
+    }
+
+    /// Mirror of `mux::RunError`.
+    #[derive(Debug)]
+    pub enum RunError {
+        Config(String),
+        Canceled,
+        Closed,
+        Protocol(String),
+        IO(String),
+    }
+
+    impl From<crate::mux::RunError> for RunError {
+        fn from(e: crate::mux::RunError) -> Self {
+            use crate::mux::RunError as E;
+            match e {
+                E::Config(e) => Self::Config(format!("{e:#}")),
+                E::Canceled(_) => Self::Canceled,
+                E::Closed => Self::Closed,
+                E::Protocol(e) => Self::Protocol(format!("{e:#}")),
+                E::IO(e) => Self::IO(format!("{e:#}")),
+            }
+        }
+    }
+
+    pub struct Mux(crate::mux::Mux);
+
+    impl Mux {
+        pub fn new(cfg: Config) -> Self {
+            Self(crate::mux::Mux {
+                cfg: Arc::new(cfg.0),
+                accept: BTreeMap::new(),
+                connect: BTreeMap::new(),
+            })
+        }
+        pub fn accept(mut self, capability: u64, q: &StreamQueue) -> Self {
+            self.0.accept.insert(capability, q.0.clone());
+            self
+        }
+        pub fn connect(mut self, capability: u64, q: &StreamQueue) -> Self {
+            self.0.connect.insert(capability, q.0.clone());
+            self
+        }
+        pub async fn run<S: io::AsyncRead + io::AsyncWrite + Send>(
+            self,
+            ctx: &ctx::Ctx,
+            transport: S,
+        ) -> Result<(), RunError> {
+            self.0.run(ctx, transport).await.map_err(Into::into)
+        }
+    }
+}
+
+/// `rpc::Service` with the servers / clients the harness needs.
+pub mod rpc {
+    use std::{future::Future, pin::Pin, sync::Arc};
+
+    use zksync_concurrency::{ctx, io, limiter, time};
+    use zksync_consensus_roles::validator;
+
+    use super::mux::RunError;
+
+    /// Capability ids and in-flight limits of the RPCs.
+    pub fn capability_ping() -> u64 {
+        <crate::rpc::ping::Rpc as crate::rpc::Rpc>::CAPABILITY.id()
+    }
+    pub fn capability_consensus() -> u64 {
+        <crate::rpc::consensus::Rpc as crate::rpc::Rpc>::CAPABILITY.id()
+    }
+    pub fn inflight_ping() -> u32 {
+        <crate::rpc::ping::Rpc as crate::rpc::Rpc>::INFLIGHT
+    }
+    pub fn inflight_consensus() -> u32 {
+        <crate::rpc::consensus::Rpc as crate::rpc::Rpc>::INFLIGHT
+    }
+    pub fn ping_rate() -> limiter::Rate {
+        crate::rpc::ping::RATE
+    }
+
+    type BoxFut<'a, T> = Pin<Box<dyn 'a + Send + Future<Output = T>>>;
+    /// Harness-side consensus handler: called for every request, its future is the handler's
+    /// lifetime (the real handler waits for the replica's ack here).
+    pub type ConsensusHandler = Arc<
+        dyn Send
+            + Sync
+            + for<'a> Fn(&'a ctx::Ctx, validator::Signed<validator::ConsensusMsg>) -> BoxFut<'a, anyhow::Result<()>>,
+    >;
+
+    struct ConsensusServer {
+        handler: ConsensusHandler,
+        max_req_size: usize,
+    }
+
+    #[async_trait::async_trait]
+    impl crate::rpc::Handler<crate::rpc::consensus::Rpc> for ConsensusServer {
+        fn max_req_size(&self) -> usize {
+            self.max_req_size
+        }
+        async fn handle(
+            &self,
+            ctx: &ctx::Ctx,
+            req: crate::rpc::consensus::Req,
+        ) -> anyhow::Result<crate::rpc::consensus::Resp> {
+            (self.handler)(ctx, req.0).await?;
+            Ok(crate::rpc::consensus::Resp)
+        }
+    }
+
+    /// Runs an RPC service with the real ping server (and optionally a consensus server with the
+    /// given handler and rate) on `transport`: what `consensus::Network::run_inbound_stream` sets up.
+    pub async fn run_server<S: io::AsyncRead + io::AsyncWrite + Send>(
+        ctx: &ctx::Ctx,
+        transport: S,
+        consensus: Option<(ConsensusHandler, limiter::Rate, usize)>,
+    ) -> Result<(), RunError> {
+        let mut service = crate::rpc::Service::new().add_server(
+            ctx,
+            crate::rpc::ping::Server,
+            crate::rpc::ping::RATE,
+        );
+        if let Some((handler, rate, max_req_size)) = consensus {
+            service = service.add_server(
+                ctx,
+                ConsensusServer {
+                    handler,
+                    max_req_size,
+                },
+                rate,
+            );
+        }
+        service.run(ctx, transport).await.map_err(Into::into)
+    }
+
+    /// Client side: real ping client (ping loop with `timeout`) and a consensus client sending
+    /// `msgs` one call each (as `consensus::Network::run_outbound_stream` does).
+    pub async fn run_client<S: io::AsyncRead + io::AsyncWrite + Send>(
+        ctx: &ctx::Ctx,
+        transport: S,
+        ping_timeout: Option<time::Duration>,
+        consensus_rate: limiter::Rate,
+        msgs: Vec<validator::Signed<validator::ConsensusMsg>>,
+        on_result: Arc<dyn Send + Sync + Fn(usize, bool)>,
+    ) -> anyhow::Result<()> {
+        use zksync_concurrency::scope;
+        let consensus_cli =
+            crate::rpc::Client::<crate::rpc::consensus::Rpc>::new(ctx, consensus_rate);
+        let ping_client =
+            crate::rpc::Client::<crate::rpc::ping::Rpc>::new(ctx, crate::rpc::ping::RATE);
+        let (consensus_cli, ping_client, on_result) = (&consensus_cli, &ping_client, &on_result);
+        scope::run!(ctx, |ctx, s| async move {
+            let mut service = crate::rpc::Service::new().add_client(consensus_cli);
+            if let Some(t) = ping_timeout {
+                service = service.add_client(ping_client);
+                s.spawn(async move { ping_client.ping_loop(ctx, t).await });
+            }
+            s.spawn(async move {
+                for (i, m) in msgs.into_iter().enumerate() {
+                    let call = consensus_cli.reserve(ctx).await?;
+                    s.spawn(async move {
+                        let res = call.call(ctx, &crate::rpc::consensus::Req(m), 1024).await;
+                        on_result(i, res.is_ok());
+                        Ok(())
+                    });
+                }
+                Ok(())
+            });
+            service
+                .run(ctx, transport)
+                .await
+                .map_err(|e| anyhow::format_err!("{e:#}"))
+        })
+        .await
+    }
+}
